@@ -11,7 +11,11 @@ import (
 //	pkg/controller/runtime/internal/rruntime/watch.go   (WatchTrigger's filter rule, triggerReconcile)
 //	pkg/controller/runtime/internal/rruntime/rruntime.go (event channel capacity, trigger at registration)
 //	pkg/controller/runtime/internal/qruntime/watch.go    (per-input destroy-ready filter of the q adapter)
-//	pkg/controller/runtime/runtime.go                    (watchBuffer)
+//	pkg/controller/runtime/runtime.go                    (watchBuffer; the hand-off of the single dedup map between
+//	                                                      deduplicateWatchEvents and deliverDeduplicatedEvents:
+//	                                                      channel capacities, the one initial map, where the map is
+//	                                                      acquired from and where it is routed to, lookup-then-trigger)
+//	pkg/controller/runtime/internal/dependency/database.go (GetDependentControllers returns a fresh slice)
 func genPipeline(repo, out string) {
 	const ns = "Cosi.Gen.Pipeline"
 
@@ -127,5 +131,224 @@ func genPipeline(repo, out string) {
 	l.line("/-- qruntime.(*Adapter).WatchTrigger evaluates the destroy-ready filter per input and Puts primary/mapped jobs -/")
 	l.line("def qFilterPerInput : Bool := %s", leanBool(qPerInput))
 	l.line("def watchBuffer : Nat := %s", watchBuffer)
+
+	genHandoff(l, rt, parse(filepath.Join(repo, "pkg/controller/runtime/internal/dependency/database.go")))
+
 	l.write(out, ns)
+}
+
+// stmtTexts prints every statement of a block on one line.
+func stmtTexts(list []ast.Stmt) []string {
+	res := make([]string, 0, len(list))
+	for _, st := range list {
+		res = append(res, src(st))
+	}
+
+	return res
+}
+
+// foreverBody returns the body of a function that consists of a single `for { ... }`.
+func foreverBody(fd *ast.FuncDecl) []ast.Stmt {
+	if fd == nil || fd.Body == nil || len(fd.Body.List) != 1 {
+		return nil
+	}
+
+	fs, ok := fd.Body.List[0].(*ast.ForStmt)
+	if !ok || fs.Init != nil || fs.Cond != nil || fs.Post != nil || fs.Body == nil {
+		return nil
+	}
+
+	return fs.Body.List
+}
+
+// selectClauses returns the comm clauses of a `select` as "comm => body" texts, in source order.
+func selectClauses(st ast.Stmt) ([]string, bool) {
+	sel, ok := st.(*ast.SelectStmt)
+	if !ok || sel.Body == nil {
+		return nil, false
+	}
+
+	var res []string
+
+	for _, cl := range sel.Body.List {
+		cc, ok := cl.(*ast.CommClause)
+		if !ok {
+			return nil, false
+		}
+
+		comm := "default"
+		if cc.Comm != nil {
+			comm = src(cc.Comm)
+		}
+
+		res = append(res, comm+" => "+strings.Join(stmtTexts(cc.Body), "; "))
+	}
+
+	return res, true
+}
+
+func sameSet(a []string, b ...string) bool {
+	if len(a) != len(b) {
+		return false
+	}
+
+	m := map[string]int{}
+	for _, x := range a {
+		m[x]++
+	}
+
+	for _, x := range b {
+		m[x]--
+	}
+
+	for _, n := range m {
+		if n != 0 {
+			return false
+		}
+	}
+
+	return true
+}
+
+// genHandoff regenerates the facts of the two-goroutine hand-off of the dedup map (runtime.go
+// processWatched / deduplicateWatchEvents / deliverDeduplicatedEvents / dedup.takeOne) and of
+// dependency.(*Database).GetDependentControllers. Every function is matched statement by
+// statement against the one shape the Lean model (Cosi.Model.Handoff) transcribes; anything
+// else is `.unknown` / `false` / 0.
+func genHandoff(l *leanFile, rt, db *ast.File) {
+	const (
+		sendEmpty = "if !channel.SendWithContext(runtime.runCtx, empty, m) { return }"
+		sendCh    = "if !channel.SendWithContext(runtime.runCtx, ch, m) { return }"
+		ctxDone   = "<-runtime.runCtx.Done() => return"
+	)
+
+	// processWatched: two capacity-1 channels, exactly one map, put into `empty`
+	chCap, emptyCap, maps, wiring := 0, 0, 0, false
+
+	if fd := method(rt, "Runtime", "processWatched"); fd != nil && fd.Body != nil {
+		other := 0
+		goDedup, goDeliver := 0, 0
+
+		for _, st := range stmtTexts(fd.Body.List) {
+			switch st {
+			case "ch := make(chan dedup, 1)":
+				chCap = 1
+			case "empty := make(chan dedup, 1)":
+				emptyCap = 1
+			case "empty <- dedup{}":
+				maps++
+			case "goFunc(&runtime.group, func() { runtime.deduplicateWatchEvents(ch, empty) })":
+				goDedup++
+			case "goFunc(&runtime.group, func() { runtime.deliverDeduplicatedEvents(ch, empty) })":
+				goDeliver++
+			default:
+				other++
+			}
+		}
+
+		wiring = other == 0 && goDedup == 1 && goDeliver == 1
+		if !wiring {
+			chCap, emptyCap, maps = 0, 0, 0
+		}
+	}
+
+	// deduplicateWatchEvents
+	acquire, dedupRoute := ".unknown", ".unknown"
+
+	if body := foreverBody(method(rt, "Runtime", "deduplicateWatchEvents")); len(body) == 8 {
+		t := stmtTexts(body)
+		recv, ok1 := selectClauses(body[1])
+		acq, ok2 := selectClauses(body[3])
+
+		drainOK := false
+
+		if ls, ok := body[6].(*ast.LabeledStmt); ok && ls.Label.Name == "drainer" {
+			if fs, ok := ls.Stmt.(*ast.ForStmt); ok && fs.Init == nil && fs.Cond == nil && fs.Post == nil && len(fs.Body.List) == 1 {
+				if cl, ok := selectClauses(fs.Body.List[0]); ok {
+					drainOK = sameSet(cl,
+						"events = <-runtime.watchCh => if !runtime.processEvents(events, m) { return }",
+						ctxDone,
+						"default => break drainer")
+				}
+			}
+		}
+
+		frame := t[0] == "var events []state.Event" && ok1 && sameSet(recv, ctxDone, "events = <-runtime.watchCh => ") &&
+			t[2] == "var m dedup" && ok2 &&
+			t[4] == "if !runtime.processEvents(events, m) { return }" &&
+			drainOK && t[7] == sendCh
+
+		if frame && sameSet(acq, "m = <-empty => ", "m = <-ch => ", ctxDone) {
+			acquire = ".emptyOrCh"
+		}
+
+		if frame && t[5] == "if len(m) == 0 { "+sendEmpty+" continue }" {
+			dedupRoute = ".emptyIffEmpty"
+		}
+	}
+
+	// deliverDeduplicatedEvents + dedup.takeOne
+	deliverAcquire, deliverRoute, lookupThenTrigger := false, ".unknown", false
+
+	takeOneOK := false
+
+	if fd := method(rt, "dedup", "takeOne"); fd != nil && fd.Body != nil && len(fd.Body.List) == 2 {
+		t := stmtTexts(fd.Body.List)
+		takeOneOK = t[0] == "for k := range d { md := reduced.Metadata{ Key: k, Value: d[k], } delete(d, k) return md }" &&
+			strings.HasPrefix(t[1], "panic(")
+	}
+
+	if body := foreverBody(method(rt, "Runtime", "deliverDeduplicatedEvents")); len(body) == 9 && takeOneOK {
+		t := stmtTexts(body)
+		acq, ok := selectClauses(body[1])
+
+		deliverAcquire = t[0] == "var m dedup" && ok && sameSet(acq, "m = <-ch => ", ctxDone) && t[2] == "k := m.takeOne()"
+
+		if deliverAcquire && t[3] == "if len(m) > 0 { "+sendCh+" } else { "+sendEmpty+" }" {
+			deliverRoute = ".chIffNonEmpty"
+		}
+
+		lookupThenTrigger = deliverAcquire &&
+			t[4] == "controllers, err := runtime.depDB.GetDependentControllers(controller.Input{ Namespace: k.Namespace, Type: k.Typ, ID: optional.Some(k.ID), })" &&
+			strings.HasPrefix(t[5], "if err != nil {") && strings.HasSuffix(t[5], " continue }") &&
+			t[6] == "runtime.controllersMu.RLock()" &&
+			t[7] == "for _, ctrl := range controllers { runtime.controllers[ctrl].WatchTrigger(&k) }" &&
+			t[8] == "runtime.controllersMu.RUnlock()"
+	}
+
+	// GetDependentControllers: the result is a fresh slice (slices.Concat of the two lookups)
+	fresh := false
+
+	if fd := method(db, "Database", "GetDependentControllers"); fd != nil && fd.Body != nil && len(fd.Body.List) > 0 {
+		if rs, ok := fd.Body.List[len(fd.Body.List)-1].(*ast.ReturnStmt); ok && len(rs.Results) == 2 && src(rs.Results[1]) == "nil" {
+			if call, ok := rs.Results[0].(*ast.CallExpr); ok && src(call.Fun) == "slices.Concat" && len(call.Args) == 2 && !call.Ellipsis.IsValid() {
+				fresh = strings.HasPrefix(src(call.Args[0]), "db.inputLookup[namespaceType{") &&
+					strings.HasPrefix(src(call.Args[1]), "db.inputLookupID[namespaceTypeID{")
+			}
+		}
+
+		// no other statement may hand out the lookup slices
+		for _, st := range fd.Body.List[:len(fd.Body.List)-1] {
+			if strings.Contains(src(st), "inputLookup") {
+				fresh = false
+			}
+		}
+	}
+
+	l.line("/-- processWatched: `ch := make(chan dedup, 1)`, `empty := make(chan dedup, 1)`, exactly one `empty <- dedup{}` and the two goroutines (0 = unrecognised) -/")
+	l.line("def handoffChCap : Nat := %d", chCap)
+	l.line("def handoffEmptyCap : Nat := %d", emptyCap)
+	l.line("def handoffInitialMaps : Nat := %d", maps)
+	l.line("/-- deduplicateWatchEvents: after receiving a batch the map is acquired from `empty` or from `ch` -/")
+	l.line("def dedupAcquire : MapAcquire := %s", acquire)
+	l.line("/-- deduplicateWatchEvents: after processEvents the map goes to `empty` iff it is empty, else (after draining watchCh) to `ch` -/")
+	l.line("def dedupRoute : DedupRoute := %s", dedupRoute)
+	l.line("/-- deliverDeduplicatedEvents: the map is received from `ch` only, one key is removed by takeOne -/")
+	l.line("def deliverAcquiresCh : Bool := %s", leanBool(deliverAcquire))
+	l.line("/-- deliverDeduplicatedEvents: after takeOne the map goes back to `ch` iff it is still non-empty, else to `empty` -/")
+	l.line("def deliverRoute : DeliverRoute := %s", deliverRoute)
+	l.line("/-- deliverDeduplicatedEvents: after handing the map back, GetDependentControllers(key), then under controllersMu.RLock WatchTrigger for each -/")
+	l.line("def lookupThenTrigger : Bool := %s", leanBool(lookupThenTrigger))
+	l.line("/-- dependency.(*Database).GetDependentControllers returns slices.Concat of the two lookups: a fresh slice -/")
+	l.line("def dependentsFresh : Bool := %s", leanBool(fresh))
 }
